@@ -668,6 +668,21 @@ func (m *mon) c09() {
 	if !m.props["C09"] {
 		return
 	}
+	// pending jobs survive and resume: after a Resume / Restart, at rest with the worker running,
+	// every job accepted (and not cancelled) has been processed
+	resumed := false
+	for _, c := range m.e.calls {
+		if (c.name == "Resume" || c.name == "Restart") && c.tRet >= 0 {
+			resumed = true
+		}
+	}
+	if resumed && m.clean() && m.finalWorkerStatus() == 1 && !m.e.noFinalDrain {
+		for _, s := range m.e.subs {
+			if s.accepted && len(s.tEnter) == 0 && !m.cancelledBeforeStart(s) {
+				m.add("C09", "not-resumed", "job d%d (q%d) accepted at t=%d is still pending at rest although the worker was resumed and is running", s.data, s.q, s.tAddRet)
+			}
+		}
+	}
 	for _, c := range m.e.calls {
 		if c.tRet < 0 || !strings.HasPrefix(c.res, "nil/") {
 			continue
@@ -1014,7 +1029,7 @@ func (m *mon) c18() {
 			live--
 		}
 	}
-	if peak > maxConc+1 {
+	if peak > maxConc+verifPoolSlack {
 		m.add("C18", "pool-too-large", "%d pool goroutines alive at once, largest concurrency configured %d", peak, maxConc)
 	}
 	if m.clean() && m.finalWorkerStatus() == 3 {
@@ -1028,3 +1043,12 @@ func (m *mon) c18() {
 		m.add("C18", "no-idle-worker", "running worker at rest has %d idle workers", m.e.finalCounts.idle)
 	}
 }
+
+// verifPoolSlack: pool goroutines tolerated above the largest concurrency configured
+var verifPoolSlack = func() int {
+	if os.Getenv("VERIF_POOL_SLACK") != "" {
+		n, _ := strconv.Atoi(os.Getenv("VERIF_POOL_SLACK"))
+		return n
+	}
+	return 0
+}()
